@@ -149,7 +149,7 @@ func (d *DBFT[H]) initializeConsensus(view byte, ts uint64) {
 	} else {
 		timeout = d.timePerBlock << (d.ViewNumber + 1)
 	}
-	if d.lastBlockIndex+1 == d.BlockIndex {
+	if d.lastBlockIndex+1 == d.BlockIndex && !d.lastBlockTime.IsZero() {
 		var ts = d.Timer.Now()
 		var diff = ts.Sub(d.lastBlockTime)
 		timeout -= diff
